@@ -1,4 +1,77 @@
-From Coq Require Import ZArith List.
-From OMV Require Import Base.Val C13.Model.
-Theorem C13_placeholder : True. Proof. exact I. Qed.
-Print Assumptions C13_placeholder.
+(* C13 -- property theorems (statements only; proofs by [exact] of lemmas in Proofs.v). *)
+From Coq Require Import ZArith QArith Qabs List.
+From OMV Require Import Base.Val C13.Model C13.Proofs.
+Import ListNotations.
+Open Scope nat_scope.
+
+(* For every sparse sub-jacobian kind (COO / rows-cols, CSR, CSC, diagonal), every declared pattern,
+   every size, threshold and approximated matrix: after set_col has been called for all columns the
+   report holds exactly the approximated entries outside the declared pattern whose magnitude
+   exceeds the threshold (in column order; key absent when there is none) -- repaired bookkeeping. *)
+Theorem C13_uncovered_complete_sound : forall k pat nrows ncols thr M,
+  k <> KDense ->
+  report_of (run_cols true k pat nrows thr (matrix_cols M ncols) (init_state pat)) =
+  match spec_uncovered pat nrows ncols thr M with
+  | [] => RAbsent
+  | l => RList l
+  end.
+Proof. exact uncovered_complete_sound. Qed.
+Print Assumptions C13_uncovered_complete_sound.
+
+Theorem C13_spec_uncovered_In : forall pat nrows ncols thr M r c,
+  In (r, c) (spec_uncovered pat nrows ncols thr M) <->
+  r < nrows /\ c < ncols /\ in_pat pat r c = false /\ (thr < Qabs (M r c))%Q.
+Proof. exact spec_uncovered_In. Qed.
+Print Assumptions C13_spec_uncovered_In.
+
+(* The bookkeeping of the source before fix_1.diff (extend inside the "key not yet present" branch;
+   CSR never extends; diagonal never writes the threshold key) does not have that property, for any
+   sparse kind. *)
+Theorem C13_uncovered_present_refuted : forall k, k <> KDense ->
+  report_of (run_cols false k wit_pat 2 0%Q (matrix_cols wit_M 2) (init_state wit_pat)) <>
+  RList (spec_uncovered wit_pat 2 2 0%Q wit_M).
+Proof. exact uncovered_present_refuted. Qed.
+Print Assumptions C13_uncovered_present_refuted.
+
+(* On the declared pattern the stored (reported) J_fd values are the approximated values, whatever
+   the bookkeeping variant and kind. *)
+Theorem C13_stored_values_are_fd_values : forall b k pat nrows ncols thr (M : nat -> nat -> Q) i,
+  i < length pat -> snd (nth i pat (0, 0)) < ncols ->
+  nth i (vals (run_cols b k pat nrows thr (matrix_cols M ncols) (init_state pat))) 0%Q =
+  M (fst (nth i pat (0, 0))) (snd (nth i pat (0, 0))).
+Proof. exact stored_values_are_fd_values. Qed.
+Print Assumptions C13_stored_values_are_fd_values.
+
+(* Error report: the abs error is the difference of the two reported values ... *)
+Theorem C13_abs_error_is_difference : forall x ref atol rtol,
+  let t := get_tol_violation x ref atol rtol in
+  tv_abs t = Qabs (tv_x t - tv_ref t).
+Proof. exact tv_abs_is_difference. Qed.
+Print Assumptions C13_abs_error_is_difference.
+
+(* ... which are the entries of the two compared arrays at one and the same position, where the
+   tolerance violation is maximal ... *)
+Theorem C13_max_violation_is_max : forall x ref atol rtol,
+  x <> [] -> length x = length ref ->
+  let t := get_tol_violation x ref atol rtol in
+  (exists i, i < length x /\ tv_x t = nth i x 0%Q /\ tv_ref t = nth i ref 0%Q) /\
+  tv_max t = viol atol rtol (tv_x t) (tv_ref t) /\
+  (forall j, j < length x -> (viol atol rtol (nth j x 0%Q) (nth j ref 0%Q) <= tv_max t)%Q).
+Proof. exact tv_max_is_max. Qed.
+Print Assumptions C13_max_violation_is_max.
+
+(* ... the "above tolerance" verdict is exactly positivity of that violation ... *)
+Theorem C13_above_iff : forall x ref atol rtol,
+  x <> [] -> length x = length ref ->
+  let t := get_tol_violation x ref atol rtol in
+  tv_above t = true <-> (0 < tv_max t)%Q.
+Proof. exact tv_above_iff. Qed.
+Print Assumptions C13_above_iff.
+
+(* ... and with zero tolerances the abs error is the largest entrywise difference. *)
+Theorem C13_abs_error_is_max_difference : forall x ref,
+  x <> [] -> length x = length ref ->
+  let t := get_tol_violation x ref 0 0 in
+  forall j, j < length x -> (Qabs (nth j x 0%Q - nth j ref 0%Q) <= tv_abs t)%Q.
+Proof. exact tv_abs_is_max_difference. Qed.
+Print Assumptions C13_abs_error_is_max_difference.
